@@ -1,4 +1,5 @@
 import QuantemModel.Model.Serialize
+import QuantemModel.Model.SerializeDispatch
 /-
 C01 extensions of the serializer model (own file: Model/Serialize.lean is shared with C14/C08).
 Core Lean only.
@@ -10,6 +11,8 @@ Core Lean only.
    the argument checks, or raising part-way while writing), `load`, `print_file`.  A target holds what the
    last save that RETURNED NORMALLY wrote there (staging + install, `Model/SaveFs.lean`/C08).
 3. `_is_numeric_scalar` over a feature view of a Python value.
+4. `kindOf` / `nodeObs` — the link between the dispatch chain (`Model/SerializeDispatch.lean`) and
+   `encode`: which Python kind a value of the universe is, and which branch a stored node shows.
 -/
 namespace QuantemModel.Serialize
 
@@ -154,5 +157,57 @@ def numFeatOf : Val → NumFeat
   | .npScalar _ (.bool _) | .npScalar _ (.int _) => ⟨false, false, true⟩
   | .ndarray .. | .list _ | .tuple _ | .set _ | .dict _ | .torch .tensor _ _ | .torch .parameter _ _ => ⟨true, false, false⟩
   | _ => ⟨false, false, false⟩
+
+/-! ### link between the dispatch chain and `encode` -/
+
+open QuantemModel.SerDispatch in
+/-- the Python kind of a value of the universe -/
+def kindOf : Val → Kind
+  | .scalar .none => .pyNone
+  | .scalar (.bool _) => .pyBool
+  | .scalar (.int _) => .pyInt
+  | .scalar (.float _) => .pyFloat
+  | .scalar (.str _) => .pyStr
+  | .npScalar dt (.float _) => if dt == "float64" then .npFloat64 else .npFloat32
+  | .npScalar _ (.str _) => .npStr
+  | .npScalar _ (.bool _) => .npBool
+  | .npScalar _ _ => .npInt64
+  | .path _ => .path
+  | .ndarray _ sh _ => if sh.isEmpty then .ndarray0d else .ndarray
+  | .torch .tensor _ _ => .tensor
+  | .torch .parameter _ _ => .parameter
+  | .torch .optimizer _ _ => .optimizer
+  | .torch .scheduler _ _ => .scheduler
+  | .torch .module _ _ => .module
+  | .torch .other _ _ => .torchGenerator
+  | .fallback .. => .pyComplex
+  | .rawBytes _ => .bytes
+  | .npRng _ => .npRng
+  | .torchRng => .torchGenerator      -- never produced by `observe`: a torch.Generator takes the module branch
+  | .pyLogger .. => .pyLogger
+  | .list _ => .list
+  | .tuple _ => .tuple
+  | .set _ => .set
+  | .dict _ => .dict
+  | .obj .. => .obj
+
+/-- which branch of `_serialize_value` a stored node shows (the observable `obsOf` of the dispatch model) -/
+def nodeObs : Node → String
+  | .attr _ true => "path"
+  | .attr _ false => "attr"
+  | .arr .. => "ndarray"
+  | .bytes _ => "fallback"
+  | .seq f _ => if fget f "_container_type" = some (.str "set") then "set" else "container"
+  | .map f _ =>
+      if ftrue f "_torch_tensor" then "tensor"
+      else if ftrue f "_torch_optimizer" then "optimizer"
+      else if ftrue f "_torch_scheduler" then "scheduler"
+      else if ftrue f "_python_logger" then "pyLogger"
+      else if ftrue f "_torch_whole_module" then "module"
+      else if (fget f "_autoserialize").isSome then "obj"
+      else if (fget f "_container_type").isSome then "container"
+      else if ftrue f "_numpy_rng" then "npRng"
+      else if ftrue f "_torch_rng_skipped" then "torchRng"
+      else "unknown"
 
 end QuantemModel.Serialize
